@@ -21,7 +21,8 @@ type Ty struct {
 	Mod      string // named: module of the definition
 	Name     string // named: IDL name
 	IsEnum   bool
-	Qual     bool // named: written as Mod::Name
+	Qual     bool   // named: written as Mod::Name
+	Proto    string // named, -module-cycle programs only: file (without .tars) of the definition
 }
 
 type Field struct {
@@ -79,6 +80,7 @@ type Prog struct {
 	Files []*File // Files[0] is the one given to tars2go
 	Feats map[string]int
 	Edge  string // the single deliberately exotic construct of this program ("" = none)
+	Cycle bool   // to be compiled with -module-cycle
 }
 
 // ---- rendering with recorded token boundaries ----
@@ -287,6 +289,8 @@ func (g *gen) name(prefix string, lowerOK bool) string {
 }
 
 type scope struct {
+	proto   string           // -module-cycle programs: the file being generated
+	eproto  map[*Decl]string // -module-cycle programs: file of every visible declaration
 	mod     string
 	enums   []*Decl // visible enums (with module)
 	structs []*Decl
@@ -323,6 +327,12 @@ func (g *gen) named(sc *scope, wantEnum, wantStruct bool) *Ty {
 		m = sc.mod
 	}
 	t := &Ty{Kind: "named", Mod: m, Name: d.Name, IsEnum: d.Kind == "enum"}
+	if sc.proto != "" {
+		t.Proto = sc.eproto[d]
+		if t.Proto == "" {
+			t.Proto = sc.proto
+		}
+	}
 	if m != sc.mod {
 		t.Qual = true
 		g.feat("type:qualified-other-module")
@@ -913,11 +923,25 @@ func (t *Ty) GoType(cur string) string {
 	case "map":
 		return "map[" + t.K.GoType(cur) + "]" + t.V.GoType(cur)
 	}
-	if t.Mod != cur {
+	if t.key() != cur {
+		if t.Proto != "" {
+			return t.Proto + "_" + t.Mod + "." + upperFirst(t.Name)
+		}
 		return t.Mod + "." + upperFirst(t.Name)
 	}
 	return upperFirst(t.Name)
 }
+
+// modKey identifies the Go package of a module: the module name, or file/module for programs
+// compiled with -module-cycle (it is also the directory of the package below -outdir)
+func modKey(proto, mod string) string {
+	if proto != "" {
+		return proto + "/" + mod
+	}
+	return mod
+}
+
+func (t *Ty) key() string { return modKey(t.Proto, t.Mod) }
 
 // GoTypeQ: the Go type with every named type qualified by the marker @Module@ (replaced by the import
 // alias of that module's package in the call driver)
@@ -928,7 +952,7 @@ func (t *Ty) GoTypeQ() string {
 	case "map":
 		return "map[" + t.K.GoTypeQ() + "]" + t.V.GoTypeQ()
 	case "named":
-		return "@" + t.Mod + "@." + upperFirst(t.Name)
+		return "@" + t.key() + "@." + upperFirst(t.Name)
 	}
 	return t.GoType("")
 }
@@ -963,6 +987,9 @@ func (p *Prog) CallIfaces() []CallIface {
 					continue
 				}
 				ci := CallIface{Mod: m.Name, Name: d.Name}
+				if p.Cycle {
+					ci.Mod = modKey(f.Name, m.Name)
+				}
 				for _, fn := range d.Funcs {
 					cf := CallFunc{Name: fn.Name}
 					if fn.Ret != nil {
